@@ -507,6 +507,16 @@ def run_faults(cfg, out, props=None, tag="C05", profiles_pool=None, extra=None):
                 w.step(int(0.8 / w.dt))
                 w.net.heal(0.004)
                 w.step(10)
+            # --- a heartbeat per entity: a few hundred EMPTY messages handed to send() within one frame (5 bytes each on the wire: more
+            #     of them fit a datagram by size than its one-byte count field can name)
+            if run.open(c) and (case + cfg["shard"]) % 3 == 1:
+                side = r.choice(["client", "server"])
+                ep = c if side == "client" else run.sconn(c)
+                if ep is not None:
+                    for _k in range(r.choice([257, 257, 256, 300, 520])):
+                        run.app.send(ep, side, 0, -1, api="send", with_cb=False, payload=b"")
+                    run.c.inc("empty_message_bursts")
+                    w.step(40)
             # --- a lazy reader: the client application calls update() every frame but collects its messages only after a long while;
             #     meanwhile the server sends it well over a thousand messages (some guaranteed, some with callbacks): every one of
             #     them is in the inbox when the application finally looks
